@@ -606,6 +606,114 @@ fn check_parser_history(ctx: &mut Ctx, buf: &[u8], start: usize, ops: &[(usize, 
     }
 }
 
+/// One assembler, a history of writes some of which must be refused: a refused write changes nothing -- not the
+/// buffer, not the cursor, and not the assembler's ability to take the next write that fits.
+/// ops: (kind, w, value)
+fn check_assembler_history(ctx: &mut Ctx, bg: &[u8], start: usize, ops: &[(usize, usize, i128)]) {
+    ctx.eval();
+    let nbits = bg.len() * 8;
+    let replay = || json!({"kind":"assembler_history","background":hex(bg),"start":start,"ops":ops.iter().map(|o| json!([KIND_NAMES[o.0], o.1, o.2.to_string()])).collect::<Vec<_>>()});
+    let mut buf = bg.to_vec();
+    let mut exp = bg.to_vec();
+    let r = guard(|| {
+        let mut asm = Assembler::new(&mut buf[..], start);
+        let mut pos = start;
+        let mut refused = 0u64;
+        let mut accepted_after_refusal = 0u64;
+        for (i, &(kind, w, v)) in ops.iter().enumerate() {
+            macro_rules! go {
+                ($K:ty) => {{
+                    let r = asm.put::<<$K as Kind>::BV>(<$K as Kind>::from_i128(v), w);
+                    (r.is_ok(), matches!(r, Err(RtcmError::BufferOverflow)))
+                }};
+            }
+            let (ok, is_bo) = match kind {
+                0 => go!(KU8),
+                1 => go!(KU16),
+                2 => go!(KU32),
+                3 => go!(KU64),
+                4 => go!(KI8),
+                5 => go!(KI16),
+                6 => go!(KI32),
+                7 => go!(KI64),
+                8 => go!(KSM8),
+                9 => go!(KSM16),
+                10 => go!(KSM32),
+                _ => go!(KSM64),
+            };
+            if pos + w <= nbits {
+                if !ok || asm.offset() != pos + w {
+                    return Err(format!("op #{}: put::<{}>({}, w={}) at bit {} of {} fits but ok={} cursor={} (expected {}); {} write(s) were refused before", i, KIND_NAMES[kind], v, w, pos, nbits, ok, asm.offset(), pos + w, refused));
+                }
+                bits::write(&mut exp, pos, w, ref_pattern(KIND_SIGN[kind], v, w));
+                pos += w;
+                if refused > 0 {
+                    accepted_after_refusal += 1;
+                }
+            } else {
+                refused += 1;
+                if !is_bo || asm.offset() != pos {
+                    return Err(format!("op #{}: put::<{}>(w={}) at bit {} of {} must be refused with BufferOverflow and leave the cursor: ok={} refused={} cursor={}", i, KIND_NAMES[kind], w, pos, nbits, ok, is_bo, asm.offset()));
+                }
+            }
+        }
+        Ok((refused, accepted_after_refusal))
+    });
+    match r {
+        Err(p) => ctx.panic_violation("C07.no_panic", &p, "a history of puts on one assembler", replay()),
+        Ok(Err(why)) => ctx.violation("C07.assembler_history|status".into(), "C07.assembler_history", why, replay()),
+        Ok(Ok((refused, after))) => {
+            if buf != exp {
+                ctx.violation("C07.assembler_history|buffer".into(), "C07.assembler_history", format!("after {} puts ({} refused) the buffer is {} but the reference gives {}", ops.len(), refused, hex(&buf), hex(&exp)), replay());
+            }
+            ctx.count("assembler_histories");
+            ctx.count_n("assembler_history_writes_refused", refused);
+            ctx.count_n("assembler_history_writes_accepted_after_a_refusal", after);
+        }
+    }
+}
+
+fn random_assembler_history(ctx: &mut Ctx, rng: &mut Rng) {
+    let len = rng.range(1, 40) as usize;
+    let mut bg = vec![0u8; len];
+    match rng.below(3) {
+        0 => {}
+        1 => bg.iter_mut().for_each(|b| *b = 0xFF),
+        _ => rng.fill(&mut bg),
+    }
+    let start = rng.usize_below(17.min(len * 8));
+    let n = rng.range(2, 16) as usize;
+    let mut ops = Vec::with_capacity(n);
+    let mut pos = start;
+    for _ in 0..n {
+        let left = (len * 8).saturating_sub(pos);
+        let kind = rng.usize_below(12);
+        let bm = KIND_BITS[kind];
+        let w = match rng.below(4) {
+            // aim at the end of the buffer: the last fitting width, one more, a few more
+            0 => (left + rng.usize_below(3)).clamp(1, bm),
+            1 => rng.range(1, 8.min(bm as i64)) as usize,
+            _ => rng.range(1, bm as i64) as usize,
+        };
+        let (lo, hi) = range(KIND_SIGN[kind], w);
+        let v = match rng.below(4) {
+            0 => lo,
+            1 => hi,
+            _ => lo + ((((rng.u64() as u128) << 64) | rng.u64() as u128) % ((hi - lo) as u128 + 1)) as i128,
+        };
+        ops.push((kind, w, v));
+        if pos + w <= len * 8 {
+            pos += w;
+        }
+    }
+    let mut h = crate::rng::hash_bytes(&bg);
+    for o in &ops {
+        h = crate::rng::mix(h, (o.0 as u64) << 56 ^ (o.1 as u64) << 48 ^ o.2 as u64);
+    }
+    ctx.nontrivial(h);
+    check_assembler_history(ctx, &bg, start, &ops);
+}
+
 fn random_parser_history(ctx: &mut Ctx, rng: &mut Rng) {
     let len = rng.range(1, 40) as usize;
     let buf = rng.bytes(len);
@@ -674,6 +782,7 @@ pub fn run(p: &Params) -> Outcome {
         for _ in 0..per {
             check_sequence(ctx, &mut rng);
             random_parser_history(ctx, &mut rng);
+            random_assembler_history(ctx, &mut rng);
         }
     });
     total.merge(seqs);
@@ -681,12 +790,15 @@ pub fn run(p: &Params) -> Outcome {
     if total.get("overflow_cases") == 0 {
         total.inconclusive("overflow path not exercised".into());
     }
+    if total.get("assembler_history_writes_accepted_after_a_refusal") == 0 {
+        total.inconclusive("no write was accepted after a refused one".into());
+    }
     if total.get("parser_history_reads_refused_after_a_skip") == 0 {
         total.inconclusive("no read was refused after a cursor skip".into());
     }
     Outcome {
         ctx: total,
-        rule: format!("enumeration: 12 carriers x widths 1..=carrier x offsets 0..={} x {} backgrounds x (all values and all bit patterns for w<=12; boundaries, one-hot +-1, alternating and {} random values above) + short-buffer overflow cases + sequences of 2..14 puts on one assembler / parses on one parser + parser histories mixing reads, consume_bits skips (to, up to and past the end) and reads that must be refused; oracle = BitRef reference writer/reader; every enumerated (carrier,w,o,background,value) is distinct by construction and counted exactly", max_off, n_bg, n_random),
+        rule: format!("enumeration: 12 carriers x widths 1..=carrier x offsets 0..={} x {} backgrounds x (all values and all bit patterns for w<=12; boundaries, one-hot +-1, alternating and {} random values above) + short-buffer overflow cases + sequences of 2..14 puts on one assembler / parses on one parser + parser histories mixing reads, consume_bits skips (to, up to and past the end) and reads that must be refused + assembler histories mixing writes that fit with writes that must be refused; oracle = BitRef reference writer/reader; every enumerated (carrier,w,o,background,value) is distinct by construction and counted exactly", max_off, n_bg, n_random),
         exhaustive: false,
         extra: json!({"hook": "rtcm_rs::verif_hooks::{assembler,parser,bit_value}"}),
     }
@@ -694,6 +806,13 @@ pub fn run(p: &Params) -> Outcome {
 
 pub fn replay(_p: &Params, v: &Value) -> Outcome {
     let mut ctx = Ctx::new(0);
+    if v["kind"] == "assembler_history" {
+        let bg = unhex(v["background"].as_str().unwrap_or(""));
+        let start = v["start"].as_u64().unwrap_or(0) as usize;
+        let ops: Vec<(usize, usize, i128)> = v["ops"].as_array().map(|a| a.iter().map(|f| (KIND_NAMES.iter().position(|x| Some(*x) == f[0].as_str()).unwrap_or(0), f[1].as_u64().unwrap_or(1) as usize, f[2].as_str().and_then(|s| s.parse().ok()).unwrap_or(0))).collect()).unwrap_or_default();
+        check_assembler_history(&mut ctx, &bg, start, &ops);
+        return Outcome { ctx, rule: "replay of one recorded assembler history".into(), exhaustive: false, extra: json!({}) };
+    }
     if v["kind"] == "parser_history" {
         let buf = unhex(v["buffer"].as_str().unwrap_or(""));
         let start = v["start"].as_u64().unwrap_or(0) as usize;
